@@ -4,7 +4,7 @@ runs the repository's tests and then every quick check; all must stay HELD. Prin
 import json, os, subprocess, sys, time
 V = os.path.dirname(os.path.dirname(os.path.abspath(__file__)))
 WT = os.environ.get("WT", "/tmp/wt_mut")
-ALL = [f"C{i:02d}" for i in range(1, 20)]
+ALL = os.environ["REFACTOR_CHECKS"].split(",") if os.environ.get("REFACTOR_CHECKS") else [f"C{i:02d}" for i in range(1, 20)]
 def sh(*a, **k):
     return subprocess.run(a, capture_output=True, text=True, errors="replace", **k)
 def reset():
